@@ -2,8 +2,9 @@
    fqe/bitstring.py and fqe/lib/bitstring.h on this run. Nothing but statements
    closed by `exact`, each followed by Print Assumptions. *)
 From Coq Require Import NArith ZArith.
-From FQE Require Import Bits GenBase Equiv_bits.
-From FQE.gen Require Import Gen_bitstring_py Gen_bitstring_h Gen_settings.
+From FQE Require Import Bits GenBase Equiv_bits Addr Equiv_binom.
+From FQE.gen Require Import Gen_bitstring_py Gen_bitstring_h Gen_settings Gen_binom_h.
+From Coq Require Import List.
 Local Open Scope Z_scope.
 
 Theorem C05_py_count_bits_between : forall s i j, 0 <= s < 2 ^ 64 -> 0 <= i < 64 -> 0 <= j < 64 -> i <> j ->
@@ -61,3 +62,13 @@ Theorem C05_popcount_land_range : forall s lo hi n, (hi <= n)%nat -> (s < 2 ^ N.
   popcount (N.land s (range_mask lo hi)) = cnt_range s lo hi.
 Proof. exact popcount_land_range. Qed.
 Print Assumptions C05_popcount_land_range.
+
+(* the binomial table of fqe/lib/binom.h *)
+Theorem C05_c_binom_table_correct : forall n k v, In (n, k, v) c_binom_table ->
+  0 <= k <= n /\ n <= 64 /\ v = binomZ n k /\ 0 <= v < 2 ^ 64.
+Proof. exact binom_table_correct. Qed.
+Print Assumptions C05_c_binom_table_correct.
+
+Theorem C05_c_binom_table_complete : forall n k, 0 <= k <= n -> n <= 64 -> exists v, In (n, k, v) c_binom_table.
+Proof. exact binom_table_complete. Qed.
+Print Assumptions C05_c_binom_table_complete.
